@@ -30,12 +30,16 @@ func zzQOp(q *RequestQueue, op int) func() {
 // instance either touches disjoint state or is ordered by the queue's lock; no operation
 // re-acquires a lock it holds
 func ZZ_C10_RequestQueue() {
-	q := NewRequestQueue(8)
-	for i, n := 0, zzvf.Choose(3); i < n; i++ {
-		q.Put(int64(i))
+	n := zzvf.Choose(3)
+	mk := func() *RequestQueue {
+		q := NewRequestQueue(8)
+		for i := 0; i < n; i++ {
+			q.Put(int64(i))
+		}
+		q.Put(int64(100))
+		q.Put(int64(101)) // two elements at least: a blocking Get in either operation returns
+		return q
 	}
-	q.Put(int64(100))
-	q.Put(int64(101)) // two elements at least: a blocking Get in either operation returns
 	a, b := zzvf.Choose(len(zzQOps10)), zzvf.Choose(len(zzQOps10))
 	if b < a {
 		return // unordered pairs
@@ -43,8 +47,11 @@ func ZZ_C10_RequestQueue() {
 	if (a == 2 || b == 2) && (a == 3 || a == 4 || b == 3 || b == 4 || a == b) {
 		return // the other operation could empty the queue and leave Get blocked natively
 	}
-	zzvf.Guard("deadlock/RequestQueue/"+zzQOps10[a], zzQOp(q, a))
-	zzvf.RacePair("race/RequestQueue/"+zzQOps10[a]+"|"+zzQOps10[b], zzQOp(q, a), zzQOp(q, b))
+	zzvf.Guard("deadlock/RequestQueue/"+zzQOps10[a], zzQOp(mk(), a))
+	zzvf.RacePairFresh("race/RequestQueue/"+zzQOps10[a]+"|"+zzQOps10[b], func() (func(), func()) {
+		q := mk()
+		return zzQOp(q, a), zzQOp(q, b)
+	})
 	zzvf.Reach("RequestQueue")
 }
 
@@ -122,8 +129,10 @@ func ZZ_C10_RequestDoubleQueue() {
 			zzvf.Reach("RequestDoubleQueue")
 			return // the other operation could empty the queue and leave Get blocked natively
 		}
-		q := zzDQPre(n)
-		zzvf.RacePair("race/RequestDoubleQueue/"+opA+"|"+opB, zzDQOp(q, opA), zzDQOp(q, opB))
+		zzvf.RacePairFresh("race/RequestDoubleQueue/"+opA+"|"+opB, func() (func(), func()) {
+			q := zzDQPre(n)
+			return zzDQOp(q, opA), zzDQOp(q, opB)
+		})
 	}
 	zzvf.Reach("RequestDoubleQueue")
 }
